@@ -274,6 +274,12 @@ class Run:
             if nd.get("mode") == "async":
                 return ups[0].sink(self._consumer(prefail=nd.get("prefail")))
             fn, a, kw = with_form(mk(nd["f"]))
+            if nd.get("detached"):
+                # built through the class without an upstream and attached afterwards with connect()
+                from streamz.sinks import sink as SinkClass
+                s = SinkClass(None, fn, *a, **kw)
+                ups[0].connect(s)
+                return s
             return ups[0].sink(fn, *a, **kw)
         raise KeyError(k)
 
